@@ -857,6 +857,7 @@ namespace link_layer {
         std::uint8_t                    phy_update_request_receive_;
         bool                            remote_versions_request_pending_;
         bool                            version_indication_received_;
+        bool                            version_indication_sent_;
 
         // default configuration parameters
         typedef                         advertising_interval< 100 >         default_advertising_interval;
@@ -891,6 +892,7 @@ namespace link_layer {
         , phy_update_request_pending_( false )
         , remote_versions_request_pending_( false )
         , version_indication_received_( false )
+        , version_indication_sent_( false )
     {
         using user_timer_t = typename bluetoe::details::find_by_meta_type<
             details::synchronized_connection_event_callback_meta_type,
@@ -949,6 +951,7 @@ namespace link_layer {
                 pending_event_                          = false;
                 remote_versions_request_pending_        = false;
                 version_indication_received_            = false;
+                version_indication_sent_                = false;
                 disconnecting_reason_                   = connection_timeout;
                 procedure_timeout_                      = delta_time();
 
@@ -1306,10 +1309,16 @@ namespace link_layer {
 
             this->commit_ll_transmit_buffer( out_buffer );
         }
+        else if ( remote_versions_request_pending_ && version_indication_sent_ )
+        {
+            // only one LL_VERSION_IND per connection
+            remote_versions_request_pending_ = false;
+        }
         else if ( remote_versions_request_pending_ )
         {
             procedure_timeout_ = delta_time( default_procedure_timeout_us );
             remote_versions_request_pending_ = false;
+            version_indication_sent_ = true;
 
             fill< layout_t >( out_buffer, {
                 ll_control_pdu_code, 6, LL_VERSION_IND,
@@ -1576,6 +1585,10 @@ namespace link_layer {
 
                 if ( body[ 1 ] <= LL_VERSION_40 )
                     used_features_ = used_features_ & ~link_layer_feature::connection_parameters_request_procedure;
+
+                // only one LL_VERSION_IND per connection
+                commit = !version_indication_sent_;
+                version_indication_sent_ = true;
 
                 fill< layout_t >( write, {
                     ll_control_pdu_code, 6, LL_VERSION_IND,
